@@ -31,7 +31,7 @@ func amf0Contract(e *abs.Engine) func(p *abs.Path, call *ssa.CallCommon, callee 
 			if !ok {
 				return nil, false
 			}
-			switch n.Obj().Name() {
+			switch core.TypeNameOf(n.Obj()) {
 			case "Object", "EcmaArray", "StrictArray":
 			default:
 				return nil, false
@@ -139,7 +139,7 @@ func checkPacketSizes(c *Ctx, rule string) {
 			if len(nils) > 0 {
 				name = "nil:" + strings.Join(nils, ",")
 			}
-			key := "rtmp|" + T.Obj().Name() + "|size=len(marshal)|" + name
+			key := "rtmp|" + core.TypeNameOf(T.Obj()) + "|size=len(marshal)|" + name
 			res := e.RunCustom(func(p *abs.Path) []abs.Value {
 				for _, n := range nils {
 					p.NilNames[n] = true
